@@ -199,6 +199,19 @@ func vhDefBackrefEscaped() Rules {
 	}
 }
 
+// no rule name starts with a lower-case letter, but the names start with
+// characters whose first UTF-8 byte, read as Latin-1, is one (0xE0 and above)
+func vhDefCaselessNames() Rules {
+	return Rules{"Root": {{"数字", `[0-9]`, nil}, {"Ａlpha", `[a-z]`, Push("In")}, {"→", ` `, nil}},
+		"In": {{"Ω", `;`, Pop()}, {"数字", `[0-9]`, nil}}}
+}
+
+// case-insensitive ASCII literals with characters that are not letters (their
+// neighbours 0x20 away are other punctuation, not another case)
+func vhDefFoldPunct() Rules {
+	return Rules{"Root": {{"At", `(?i)@a`, nil}, {"Us", `(?i)a_`, nil}, {"Br", `(?i)[b]-`, nil}, {"Sp", `(?i)c c`, nil}, {"Other", `(?s).`, nil}}}
+}
+
 func vhDefBackref() Rules { // heredoc-style back-reference
 	return Rules{
 		"Root": {{"Start", `<([a-c])`, Push("H")}, {"Ident", `[a-c]`, nil}},
